@@ -110,7 +110,10 @@ def classify(diags, meta, gen_lines, unit):
                 break
         gl = prim['line_start'] if prim else 0
         text = (prim['text'][0]['text'].strip() if prim and prim.get('text') else '')[:200]
-        fn = fn_of_line(meta, gl) or ('lemma:' + lemma_of_line(gen_lines, gl))
+        fn = fn_of_line(meta, gl)
+        if not fn:
+            nm = lemma_of_line(gen_lines, gl)
+            fn = nm if any(f['fn'] == nm for f in meta['functions']) else 'lemma:' + nm
         src = meta['line_table'].get(str(gl))
         if any(u in msg for u in UNDECIDED_MSGS):
             undecided.append({'fn': fn, 'message': msg, 'gen_line': gl})
